@@ -12,6 +12,7 @@ Local Open Scope list_scope.
 Section P6.
   Variable V : Type.
   Variable bin : binop -> V -> V -> V.
+  Variable un : unop -> V -> V.
 
   Lemma assoc_nodup_in {B} (l : list (string * B)) (k : string) (v : B) :
     NoDup (map fst l) -> In (k, v) l -> assoc k l = Some v.
@@ -38,10 +39,10 @@ Section P6.
   Qed.
 
   Lemma lookup_coll_assoc (args : nat -> option V) (attrs : list (string * node V)) (k : string) (p' : path) :
-    lookup V (k :: p') (inst V bin args (NColl attrs)) =
-    match assoc k attrs with Some c => lookup V p' (inst V bin args c) | None => None end.
+    lookup V (k :: p') (inst V bin un args (NColl attrs)) =
+    match assoc k attrs with Some c => lookup V p' (inst V bin un args c) | None => None end.
   Proof.
-    cbn [inst lookup]. rewrite (inst_attrs_map V bin args attrs), assoc_map_snd.
+    cbn [inst lookup]. rewrite (inst_attrs_map V bin un args attrs), assoc_map_snd.
     destruct (assoc k attrs); reflexivity.
   Qed.
 
@@ -50,7 +51,7 @@ Section P6.
     NoDup (map fst attrs) -> In (k, c) attrs ->
     prior_at V (k :: p') (NColl attrs) = prior_at V p' c /\
     node_at V (k :: p') (NColl attrs) = node_at V p' c /\
-    forall args, lookup V (k :: p') (inst V bin args (NColl attrs)) = lookup V p' (inst V bin args c).
+    forall args, lookup V (k :: p') (inst V bin un args (NColl attrs)) = lookup V p' (inst V bin un args c).
   Proof.
     intros ND Hin. assert (A := assoc_nodup_in attrs k c ND Hin).
     split; [|split].
@@ -64,7 +65,7 @@ Section P6.
     NoDup (map fst attrs) -> Permutation attrs attrs' ->
     prior_at V (k :: p') (NColl attrs) = prior_at V (k :: p') (NColl attrs') /\
     node_at V (k :: p') (NColl attrs) = node_at V (k :: p') (NColl attrs') /\
-    forall args, lookup V (k :: p') (inst V bin args (NColl attrs)) = lookup V (k :: p') (inst V bin args (NColl attrs')).
+    forall args, lookup V (k :: p') (inst V bin un args (NColl attrs)) = lookup V (k :: p') (inst V bin un args (NColl attrs')).
   Proof.
     intros ND P. assert (A := assoc_perm attrs attrs' k ND P).
     split; [|split].
